@@ -25,27 +25,36 @@ type fakeCA struct {
 }
 
 func newFakeCA() *fakeCA {
-	key, err := ecdsa.GenerateKey(elliptic.P256(), rand.Reader)
-	if err != nil {
-		panic(err)
+	mk := func(cn string, serial int64, parent *x509.Certificate, parentKey *ecdsa.PrivateKey) (*ecdsa.PrivateKey, *x509.Certificate) {
+		key, err := ecdsa.GenerateKey(elliptic.P256(), rand.Reader)
+		if err != nil {
+			panic(err)
+		}
+		tmpl := &x509.Certificate{
+			SerialNumber:          big.NewInt(serial),
+			Subject:               pkix.Name{CommonName: cn},
+			NotBefore:             time.Unix(0, 0),
+			NotAfter:              time.Unix(1<<34, 0),
+			IsCA:                  true,
+			BasicConstraintsValid: true,
+			KeyUsage:              x509.KeyUsageCertSign,
+		}
+		if parent == nil {
+			parent, parentKey = tmpl, key
+		}
+		der, err := x509.CreateCertificate(rand.Reader, tmpl, parent, &key.PublicKey, parentKey)
+		if err != nil {
+			panic(err)
+		}
+		cert, err := x509.ParseCertificate(der)
+		if err != nil {
+			panic(err)
+		}
+		return key, cert
 	}
-	tmpl := &x509.Certificate{
-		SerialNumber:          big.NewInt(1),
-		Subject:               pkix.Name{CommonName: "c19 fake ca"},
-		NotBefore:             time.Unix(0, 0),
-		NotAfter:              time.Unix(1<<34, 0),
-		IsCA:                  true,
-		BasicConstraintsValid: true,
-		KeyUsage:              x509.KeyUsageCertSign,
-	}
-	der, err := x509.CreateCertificate(rand.Reader, tmpl, tmpl, &key.PublicKey, key)
-	if err != nil {
-		panic(err)
-	}
-	cert, err := x509.ParseCertificate(der)
-	if err != nil {
-		panic(err)
-	}
+	// root (self-signed; EncodeX509Chain leaves self-signed certificates out) -> issuing CA
+	rootKey, root := mk("c19 fake root", 1, nil, nil)
+	key, cert := mk("c19 fake issuing ca", 2, root, rootKey)
 	return &fakeCA{key: key, cert: cert}
 }
 
